@@ -368,10 +368,14 @@ Proof.
 Qed.
 
 (* a Kubernetes unit's replies show neither secret, whatever they are, and nothing else changes *)
-Lemma kube_view_hides r :
-  k_config (kube_view r) = [] /\ k_pod (kube_view r) = [] /\
-  k_namespace (kube_view r) = k_namespace r /\ k_image (kube_view r) = k_image r.
+Lemma kube_view_hides fl r :
+  k_config (kube_view fl r) = [] /\ k_pod (kube_view fl r) = [] /\
+  k_namespace (kube_view fl r) = k_namespace r /\ k_image (kube_view fl r) = k_image r.
 Proof. repeat split. Qed.
+
+(* the view does not depend on the permission flags at all *)
+Lemma kube_view_flag_independent fl fl' r : kube_view fl r = kube_view fl' r.
+Proof. reflexivity. Qed.
 
 (* ---------- a concrete history: hypotheses satisfiable, replies do show the unit ---------- *)
 
